@@ -121,7 +121,10 @@ Fixpoint resolve_loop (fuel : nat) (S : styles) (c : cstyle) (ext : bool) (sys :
       let pt1 := pt ++ [CName sys] in
       let '(ext1, sys1, _) := sys_of c1 in
       if ext1 && mem_name sys1 pt1
-      then resolve_loop f S c1 true "decimal"%string pt1         (* continue: nothing copied *)
+      then (* a cycle: go on with ('extends', 'decimal'); the descriptors of the extended style are copied only
+              when it is the cycle's entry point, i.e. a style that extends itself (cycle_start == extended_name) *)
+           if String.eqb sys1 sys then resolve_loop f S (merge c1 ec) true "decimal"%string pt1
+           else resolve_loop f S c1 true "decimal"%string pt1
       else resolve_loop f S (merge c1 ec) ext1 sys1 pt1
     end
   end.
